@@ -59,7 +59,7 @@ PROPS = {
             "claimed": True, "engine": "fmt",
             "level_text": ("`matches_iff` / `matches_eq_spec` (the matcher is exactly 'ends in a no-space character or the set is *'), `add_star`, `mem_add` (Add is set union with * absorbing), the effective set computed by the pipeline (`C05_export`, `C05_messages_force`, `C05_env_adds`), and per format that the expressed decision is a function of the (sanitised) value taken before quoting (elvish, bash-ble, nushell, powershell, ion, zsh incl. the FULL quoting states, bash single candidate and common-prefix step); xonsh decides on the quoted text: decided counterexample, partial theorem, listed finding. Exact output correspondence and the no-space oracle on the real output for all formats."),
             "level_note": FMT_NOTE},
-    "C06": {"modules": ["Carapace.Props.C06"], "ops": [("value", {"quick": 6000, "thorough": 300000})], "rule": FMT_RULE, "assumptions": FMT_ASSUME,
+    "C06": {"modules": ["Carapace.Props.C06"], "ops": [("value", {"quick": 6000, "thorough": 300000}), ("invoke", {"quick": 5000, "thorough": 200000}), ("parse", {"quick": 3000, "thorough": 100000})], "rule": FMT_RULE, "assumptions": FMT_ASSUME,
             "claimed": True, "engine": "fmt",
             "level_text": ('`integrateLoop_spec`: the numbering loop terminates within its fuel (pigeonhole over injective names, `findFree_spec`, `errName_inj`) and appends exactly one entry per message, in order, with the message as description, values pairwise distinct and distinct from all candidates; `C06_two_entries` (at least two entries), `C06_nospace` (no trailing space), the channel formats (list read from the source) leave candidates alone and carry the messages; the filler `_` fails to extend a typed word ending in E/ER/ERR: decided counterexample, partial theorem, listed finding. Exact output correspondence and the message oracle on the real output for all formats.'),
             "level_note": FMT_NOTE},
